@@ -1454,8 +1454,8 @@ def payOut (cfg : Compiled) (r : SRan) : Bytes :=
 def payErr (cfg : Compiled) (r : SRan) : Bytes :=
   if cfg.outputStream = some .combined then [] else r.ran.stderr
 
-theorem zipErr_maps {α : Type} (f g : α → Bytes) (c : α → Int) (k : Int) : ∀ l : List α,
-    Divider.zipErr (l.map fun r => (f r, c r)) (l.map fun r => (g r, k)) =
+theorem zipErr_maps {α : Type} (f g : α → Bytes) (c : α → Int) (k : α → Int) : ∀ l : List α,
+    Divider.zipErr (l.map fun r => (f r, c r)) (l.map fun r => (g r, k r)) =
       l.map fun r => ⟨f r, g r, c r⟩ := by
   intro l
   induction l with
